@@ -1,5 +1,33 @@
-"""C14, writers: write() of each writable game leaves the chart untouched (filled in with the format harnesses)."""
+"""C14, writers: write() of each writable game leaves the chart untouched and returns text that shares nothing with it."""
+from __future__ import annotations
+
+from functools import partial
+
+from symx.run import Obligation
+from .c09 import Spec
+from .memcharts import mem_chart, WRITABLE
+
+
+def ob_writer(game, keys, perm, ctx):
+    from .c14 import Snap
+
+    sp = Spec(ctx, keys, "a", zero_start=game == "bms")
+    m = mem_chart(ctx, sp, game, perm=perm)
+    s = Snap(m)
+    out = m.write()
+    s.same(ctx, "after-write")
+    if game == "qua":
+        from . import c06
+
+        c06._write(m)
+        s.same(ctx, "after-second-write")
+    ctx.check("write.returns-text", isinstance(out, (str, bytes, list)))
 
 
 def obligations(tier, seed):
-    return []
+    obs = []
+    for g in WRITABLE:
+        for perm in (False, True):
+            obs.append(Obligation("C14/write/%s/%s" % (g, "rows-reversed" if perm else "rows-in-order"), partial(ob_writer, g, 4, perm),
+                                  bound="%s chart on the beat grid (symbolic beat lengths / start time), write(); chart snapshotted before and after" % g))
+    return obs
